@@ -58,6 +58,9 @@ class Query:
     limit: int | None = None
     offset: int | None = None
     is_summarized: bool = False
+    # the aggregated columns of a `summarize` without grouping (and columns derived from
+    # them): as long as one of them is selected, the SELECT yields exactly one row
+    agg_cols: set[UUID] = dataclasses.field(default_factory=set)
 
 
 class SqlImpl(TableImpl):
@@ -349,6 +352,18 @@ class SqlImpl(TableImpl):
 
     @classmethod
     def compile_query(cls, table: sqa.Table, query: Query, sqa_expr: dict[UUID, sqa.ColumnElement]) -> sqa.sql.Select:
+        if query.is_summarized and not query.group_by and query.agg_cols.isdisjoint(query.select):
+            # A `summarize` without grouping gives one row. If no aggregated column is
+            # selected (any more), the SELECT itself is not an aggregation and would give
+            # one row per input row: aggregate in a subquery and select from its one row.
+            inner = sqa.select(sqa.func.count().label("__pdt_count__")).select_from(table)
+            if query.where:
+                inner = inner.where(*(cls.compile_col_expr(pred, sqa_expr) for pred in query.where))
+            if query.having:
+                inner = inner.having(*(cls.compile_col_expr(pred, sqa_expr) for pred in query.having))
+            table = inner.subquery()
+            query = dataclasses.replace(query, where=[], having=[], order_by=[])
+
         sel = table.select().select_from(table)
 
         if query.where:
@@ -462,6 +477,12 @@ class SqlImpl(TableImpl):
                 for name, uid, val in zip(nd.names, nd.uuids, nd.values, strict=True)
             }
             query.select += nd.uuids
+            if query.agg_cols:
+                query.agg_cols |= {
+                    uid
+                    for uid, val in zip(nd.uuids, nd.values, strict=True)
+                    if any(isinstance(node, Col) and node._uuid in query.agg_cols for node in val.iter_subtree_postorder())
+                }
 
         elif isinstance(nd, verbs.Filter):
             # after a summarize (also an ungrouped one), predicates act on the aggregated rows
@@ -483,6 +504,15 @@ class SqlImpl(TableImpl):
             query.select = [
                 col._uuid for col in query.partition_by if sqa_expr[col._uuid].name not in set(nd.names)
             ] + nd.uuids
+            if not query.group_by:
+                query.agg_cols = {
+                    uid
+                    for uid, val in zip(nd.uuids, nd.values, strict=True)
+                    if any(
+                        isinstance(node, ColFn) and node.op.ftype == Ftype.AGGREGATE
+                        for node in val.iter_subtree_postorder()
+                    )
+                }
             query.partition_by = []
             query.order_by.clear()
             query.is_summarized = True
